@@ -148,7 +148,10 @@ CLAIMED["C11"] = {
 CLAIMED["C12"] = {
     "text": "Theorems (exact-rational instance): collinear data are recovered exactly by the weighted regression for any "
             "weights/size/tempo; lerp laws: inertia 0 takes the new line, distance contracts by exactly t per retained "
-            "strike (t^k after k), lerp a a t = a (fixed point). Tied to the code by keep-going sessions with humans on "
+            "strike (t^k after k), lerp a a t = a (fixed point); the data _add_data_point keeps all weigh more than the "
+            "rejection threshold, different strikes have different blow times, and positive weights on two different "
+            "blows make the normal matrix non-singular (det = sum over pairs w_i w_j (x_i-x_j)^2 > 0), so collinear "
+            "recovery holds with no hypothesis about the matrix. Tied to the code by keep-going sessions with humans on "
             "their own even line (tempo 0.93..1.07, >= 1/3 human bells, human or Wheatley leading, dataset sizes 5..30, "
             "tempo changes); oracle: distance of Wheatley's strikes from the humans' line.",
     "design_ref": "DESIGN.md section 3, C12", "note": TBR + " Retention of the strikes under the 7% tempo bound is checked "
@@ -169,8 +172,11 @@ CLAIMED["C14"] = {
             "translation invariant (origin moved by any c moves the fitted start by c, interval unchanged); the one "
             "absolute test (_start_time == 0) is exhibited. Tied to the code by PAIRED sessions: hold-ups of 3 ms..11 s "
             "(also repeated, also followed by a second touch) with later events shifted, and the same session at clock "
-            "origins 1, 1e3, 1e6, 1.8e9; oracle: strike-by-strike differences.",
-    "design_ref": "DESIGN.md section 3, C14", "note": TBR + " At origin 1.8e9 the implementation pair is compared at 5 ms.",
+            "origins 1, 1e3, 1e6, 1.8e9, including 300-600-row sessions with a live regression at origin 1.8e9 (these "
+            "exposed the ill-conditioned regression repaired by /repo 2aed760); oracle: strike-by-strike differences.",
+    "design_ref": "DESIGN.md section 3, C14", "note": TBR + " At origin 1.8e9 the implementation pair is compared at 5 ms (2 ms for the long keep-going sessions). The "
+            "translation-invariance theorem is about the exact function; its double-precision evaluation is modelled, "
+            "not verified, so that clause rests on the paired oracle.",
     "technique": "Coq proof over Q (field) + paired-run correspondence",
 }
 CLAIMED["C15"] = {
